@@ -4,6 +4,7 @@ CONSTANTS
   MaxFailures = 2
   DrainOnSuccess = FALSE
   SkipUnchanged = FALSE
+  RearmOnlyAfterTrigger = FALSE
   Strategy = "MASTER"
 INVARIANTS BoundedRounds TriggerKept
 PROPERTIES Converges NoLostTrigger QuitEnds
